@@ -329,6 +329,12 @@ impl DiameterHeader {
 
     /// Encodes the Diameter header to the given writer.
     pub fn encode_to<W: Write>(&self, writer: &mut W) -> Result<()> {
+        if self.length > 0x00FF_FFFF {
+            return Err(Error::EncodeError(
+                "message is too long, its length does not fit into 24 bits".into(),
+            ));
+        }
+
         // version
         writer.write_all(&[self.version])?;
 
